@@ -255,3 +255,34 @@ Proof.
   split; [|exact (solve_leaves s (answer_of first rest) C)].
   intros k r d N Hr Hd. exact (duals_latest s (answer_of first rest) k r d C N Hr Hd).
 Qed.
+
+(** ** the CVXPY problem of a dimension-reduction heuristic: the original rows plus ONE, at every solve index *)
+Definition size_of (it : item) : nat := match it with SC _ _ => 0 | LMI m => length m end.
+Definition cvx_rows (l : sent) : nat := cvx_rows_sizes (map size_of l).
+Definition cvx_heuristic_rows (l : sent) : nat := cvx_heuristic_rows_sizes (map size_of l).
+Definition cvx_vars (l : sent) : nat := cvx_vars_sizes (map size_of l).
+
+Lemma sizes_indep d o o' : map size_of (sent_of d o) = map size_of (sent_of d o').
+Proof. unfold sent_of. rewrite !map_app, !map_map. reflexivity. Qed.
+
+Theorem heuristic_rows s a : closed s ->
+  let l := sent_at (solve s a) in
+  cvx_heuristic_rows l = S (cvx_rows l)
+  /\ cvx_rows l = cvx_rows (sent_of (decl_of s) 0) /\ cvx_vars l = cvx_vars (sent_of (decl_of s) 0).
+Proof.
+  intro C. cbv zeta. unfold sent_at. destruct (sent_fresh s a C) as [-> _].
+  split; [reflexivity|]. unfold cvx_rows, cvx_vars. rewrite (sizes_indep _ _ 0). split; reflexivity.
+Qed.
+
+Theorem heuristic_rows_no_growth s ops a a' :
+  inv s -> forallb (fun o => negb (editing o)) ops = true ->
+  let k := sent_at (solve (fst (run s ops)) a') in let k1 := sent_at (solve s a) in
+  cvx_heuristic_rows k = cvx_heuristic_rows k1 /\ cvx_rows k = cvx_rows k1 /\ cvx_vars k = cvx_vars k1.
+Proof.
+  intros I E. cbv zeta.
+  destruct (heuristic_rows s a (proj1 I)) as (_ & R1 & V1).
+  destruct (heuristic_rows _ a' (proj1 (run_inv ops s I))) as (_ & R2 & V2).
+  rewrite (run_decl ops s I E) in R2, V2.
+  split; [|split; congruence].
+  change (S (cvx_rows (sent_at (solve (fst (run s ops)) a'))) = S (cvx_rows (sent_at (solve s a)))). congruence.
+Qed.
